@@ -559,12 +559,12 @@ func nodeKinds(src string) map[string]bool {
 }
 
 type c15Obs struct {
-	Gen      *ProgObs
+	Gen            *ProgObs
 	Src, Src2, Out string
-	BuildErr string
-	ProbeInj string // output of the probe built with -tags wireinject (original declarations)
-	ProbeGen string // output of the probe built without the tag (copies)
-	RunErr   string
+	BuildErr       string
+	ProbeInj       string // output of the probe built with -tags wireinject (original declarations)
+	ProbeGen       string // output of the probe built without the tag (copies)
+	RunErr         string
 }
 
 func c15Eval(c *Ctx) func([]*C15Case) []c15Obs {
@@ -745,7 +745,7 @@ func judgeC15(c *Ctx, cs *C15Case, o c15Obs, count bool) *Fail {
 func init() {
 	Register(&Property{
 		ID: "C15", Level: "exploration",
-		Rule: fmt.Sprintf("generated injector files: 1-5 functions of 1-7 statements drawn from %d statement templates (all statement and expression forms: labels/goto/break/continue, for/range, if/else with init, switch with init/fallthrough/tagless, type switch with and without a bound variable, select/send/receive, defer/recover, go, closures with shadowing, composite literals of struct/slice/array/map with local variables as keys and indices, 2- and 3-index slices, type assertions, conversions, variadic calls, inc/dec and assignment operators, local type/var/const declarations, anonymous structs, func values, method values) plus a fixed block of package-level declarations (struct tags, embedding, interfaces, iota constants, multi-name and grouped vars, generic functions and types incl. two type parameters, channel directions, methods incl. one named like the injector, doc comments, func init); locals and labels are named from a pool that collides with the generated file's import names (fmt, strconv, strings, errors, dep, dep2 and their numbered forms) and with package-level identifiers; the file imports its packages under drawn aliases, two of them have the same package name. Oracle 1: wire_gen.go parsed back holds exactly the non-injector, non-import declarations, once, in order, and a reflection walker over go/ast (so a dropped field is caught like a dropped node) finds them equal up to qualifiers resolved through each file's import table and numbered renaming of identifiers. Oracle 2: the package builds, and a probe calling every copied function prints the same output built with -tags wireinject (originals) and without (copies). Non-trivial = file covering >=25 node kinds or with a colliding local; distinct by case hash.", len(c15Templates)),
+		Rule:        fmt.Sprintf("generated injector files: 1-5 functions of 1-7 statements drawn from %d statement templates (all statement and expression forms: labels/goto/break/continue, for/range, if/else with init, switch with init/fallthrough/tagless, type switch with and without a bound variable, select/send/receive, defer/recover, go, closures with shadowing, composite literals of struct/slice/array/map with local variables as keys and indices, 2- and 3-index slices, type assertions, conversions, variadic calls, inc/dec and assignment operators, local type/var/const declarations, anonymous structs, func values, method values) plus a fixed block of package-level declarations (struct tags, embedding, interfaces, iota constants, multi-name and grouped vars, generic functions and types incl. two type parameters, channel directions, methods incl. one named like the injector, doc comments, func init); locals and labels are named from a pool that collides with the generated file's import names (fmt, strconv, strings, errors, dep, dep2 and their numbered forms) and with package-level identifiers; the file imports its packages under drawn aliases, two of them have the same package name. Oracle 1: wire_gen.go parsed back holds exactly the non-injector, non-import declarations, once, in order, and a reflection walker over go/ast (so a dropped field is caught like a dropped node) finds them equal up to qualifiers resolved through each file's import table and numbered renaming of identifiers. Oracle 2: the package builds, and a probe calling every copied function prints the same output built with -tags wireinject (originals) and without (copies). Non-trivial = file covering >=25 node kinds or with a colliding local; distinct by case hash.", len(c15Templates)),
 		Assumptions: []string{"the template catalogue is hand-written; node-kind coverage per run is reported in coverage.classes", "renaming consistency is judged structurally only up to the numbered-suffix pattern; wrong bindings are caught by compilation and by the behavioural comparison"},
 		Shards: func(tier string) int {
 			if tier == "thorough" {
